@@ -13,10 +13,10 @@
 package main
 
 import (
-	"time"
 	"encoding/binary"
 	"fmt"
 	"strings"
+	"time"
 
 	capnp "capnproto.org/go/capnp/v3"
 	"capnproto.org/go/capnp/v3/internal/verif/rpcsim"
@@ -85,6 +85,7 @@ func alphabet() []hmsg {
 		t.Struct.SetUint16(4, 2)
 	}))
 	add(call("Call(q9,sendResultsTo yourself)", 9, imp0, 64, nil, func(c rpccp.Call) { c.SendResultsTo().SetYourself() }))
+	add(call("Call(q9,sendResultsTo yourself,cap in params)", 9, imp0, 64, []rpcsim.CapD{{Kind: 's', ID: 4}}, func(c rpccp.Call) { c.SendResultsTo().SetYourself() }))
 	add(call("Call(q9,transform op kind 5)", 9, rpcsim.Target{Promised: true, ID: 0, Path: []uint16{0}}, 64, nil, func(c rpccp.Call) {
 		t, _ := c.Target()
 		pa, _ := t.PromisedAnswer()
@@ -212,6 +213,10 @@ func alphabet() []hmsg {
 	add(hmsg{name: "Join", opens: -1, build: func(m rpccp.Message) { p, _ := m.NewJoin(); p.SetQuestionId(12) }})
 	add(hmsg{name: "Resolve", opens: -1, build: func(m rpccp.Message) { p, _ := m.NewResolve(); p.SetPromiseId(0) }})
 	add(hmsg{name: "Message(kind 99)", opens: -1, build: func(m rpccp.Message) { m.Struct.SetUint16(0, 99) }})
+	add(hmsg{name: "Message(kind 99 with a capability pointer)", opens: -1, build: func(m rpccp.Message) {
+		m.Struct.SetUint16(0, 99)
+		must(m.Struct.SetPtr(0, capnp.NewInterface(m.Struct.Segment(), 3).ToPtr()))
+	}})
 	add(hmsg{name: "Message(call, null body)", opens: -1, build: func(m rpccp.Message) { m.Struct.SetUint16(0, uint16(rpccp.Message_Which_call)) }})
 	add(hmsg{name: "Message(return, null body)", opens: -1, build: func(m rpccp.Message) { m.Struct.SetUint16(0, uint16(rpccp.Message_Which_return)) }})
 	add(hmsg{name: "Unimplemented", opens: -1, build: func(m rpccp.Message) { u, _ := m.NewUnimplemented(); b, _ := u.NewBootstrap(); b.SetQuestionId(1) }})
@@ -232,16 +237,16 @@ func corruptions(base []byte, name string) []hmsg {
 		}
 		// treat every non-zero word as a potential pointer: struct/list kinds have low bits 0/1
 		alts := []uint64{
-			0,                               // null
-			word + 4,                        // offset +1
-			word - 4,                        // offset -1
-			word&^0xFFFFFFFC | 0x7FFFFFFC,   // far out of bounds
-			word ^ 1,                        // kind flip struct<->list
-			word | 0xFFFFFFFF00000000,       // max size
-			2 | (9 << 32),                   // far pointer to missing segment 9
-			6 | (0 << 32),                   // double-far, pad at offset 0 of segment 0
-			3,                               // capability pointer 0
-			3 | (0xFFFFFFFF << 32),          // capability pointer 2^32-1
+			0,                             // null
+			word + 4,                      // offset +1
+			word - 4,                      // offset -1
+			word&^0xFFFFFFFC | 0x7FFFFFFC, // far out of bounds
+			word ^ 1,                      // kind flip struct<->list
+			word | 0xFFFFFFFF00000000,     // max size
+			2 | (9 << 32),                 // far pointer to missing segment 9
+			6 | (0 << 32),                 // double-far, pad at offset 0 of segment 0
+			3,                             // capability pointer 0
+			3 | (0xFFFFFFFF << 32),        // capability pointer 2^32-1
 		}
 		for ai, alt := range alts {
 			b := append([]byte{}, base...)
@@ -392,6 +397,29 @@ func judge(sc scenario, out *outcome, vr *vsched.Result) (string, string) {
 		}
 	}
 	opened[probeQ]++
+	// a raw corruption (opens unknown) may itself be a well-formed Bootstrap
+	// or Call with another question id: count what actually arrived
+	arrived := map[uint32]int{}
+	for _, m := range out.sim.T.Wire {
+		if m.ToPeer || !m.Msg.IsValid() {
+			continue
+		}
+		switch m.Msg.Which() {
+		case rpccp.Message_Which_bootstrap:
+			if b, err := m.Msg.Bootstrap(); err == nil {
+				arrived[b.QuestionId()]++
+			}
+		case rpccp.Message_Which_call:
+			if c, err := m.Msg.Call(); err == nil {
+				arrived[c.QuestionId()]++
+			}
+		}
+	}
+	for q, n := range arrived {
+		if n > opened[q] {
+			opened[q] = n
+		}
+	}
 	for q, n := range counts {
 		if n > opened[q] {
 			return "return-surplus", fmt.Sprintf("%d Return(s) for answer id %d but the peer opened it %d time(s)\nwire: %s", n, q, opened[q], wire)
@@ -571,10 +599,10 @@ func scenarios(maxLen int, prefixes []int, withLocal bool, corrupt bool) []scena
 
 func main() {
 	vlib.Main(vlib.Spec{
-		ID:    "C08",
-		Level: "model_checking",
+		ID:          "C08",
+		Level:       "model_checking",
 		CaseTimeout: 30 * time.Minute,
-		Rule:  "scenarios = valid prefix (none | Bootstrap | Bootstrap + one gated call in flight) x every sequence of 1..L messages over a structured hostile alphabet (about 70 messages: every rpc.capnp message type with unknown / reused / finished / extreme ids, all capability-descriptor variants incl. a bad one after a good one, malformed params, unknown union members, unsupported features, plus the valid messages needed to reach finished/released states) [x optionally a local caller waiting on the peer], then a liveness probe (fresh Bootstrap) and Conn.Close; thorough also corrupts every word of six valid messages with a 10-value pointer corruption alphabet. For each scenario every schedule of the real rpc/server/capnp code inside the bounds. Oracle: no panic, no deadlock (structural), probe answered or connection shut down, Close returns, all goroutines exit, Transport contract respected, no surplus Return. states = distinct scheduling configurations summed over scenarios; transitions = scheduling steps; traces = executions on the implementation.",
+		Rule:        "scenarios = valid prefix (none | Bootstrap | Bootstrap + one gated call in flight) x every sequence of 1..L messages over a structured hostile alphabet (about 70 messages: every rpc.capnp message type with unknown / reused / finished / extreme ids, all capability-descriptor variants incl. a bad one after a good one, malformed params, unknown union members, unsupported features, plus the valid messages needed to reach finished/released states) [x optionally a local caller waiting on the peer], then a liveness probe (fresh Bootstrap) and Conn.Close; thorough also corrupts every word of six valid messages with a 10-value pointer corruption alphabet. For each scenario every schedule of the real rpc/server/capnp code inside the bounds. Oracle: no panic, no deadlock (structural), probe answered or connection shut down, Close returns, all goroutines exit, Transport contract respected, no surplus Return. states = distinct scheduling configurations summed over scenarios; transitions = scheduling steps; traces = executions on the implementation.",
 		Assumptions: []string{
 			"timers (abort timeout) never fire inside the horizon",
 			"scheduling points at every sync operation are sufficient (data-race freedom checked separately)",
